@@ -43,7 +43,10 @@ def make_measure(kind, p, cache="cold"):
     elif kind == "diag_measure":
         m = measure.GaussianDiagMeasure(Lambda=J(p["Lambda"]), nu=J(p["nu"]), ln_beta=J(p["ln_beta"]))
     elif kind == "pdf":
-        m = pdf.GaussianPDF(Sigma=J(p["Sigma"]), mu=J(p["mu"]))
+        # dtype regime: an integer-valued mean written as an integer array (see props/_cond.py)
+        as_int = bool(p.get("mu_int_dtype")) and bool(np.all(np.asarray(p["mu"]) == np.round(np.asarray(p["mu"]))))
+        mu = jnp.asarray(np.asarray(p["mu"]).astype(np.int64)) if as_int else J(p["mu"])
+        m = pdf.GaussianPDF(Sigma=J(p["Sigma"]), mu=mu)
     elif kind == "diag_pdf":
         m = pdf.GaussianDiagPDF(Sigma=J(p["Sigma"]), mu=J(p["mu"]))
     else:
@@ -141,7 +144,8 @@ def make_cond(p):
         kw = {"Lambda": J(oracle.inv_spd(Sig))}
     else:
         kw = {"Sigma": J(Sig), "Lambda": J(oracle.inv_spd(Sig)), "ln_det_Sigma": J(oracle.slogdet_spd(Sig)[0])}
-    Mj = (lambda: jnp.asarray(np.asarray(p["M"]).astype(np.int64))) if p.get("M_int_dtype") else (lambda: J(p["M"]))
+    as_int = bool(p.get("M_int_dtype")) and bool(np.all(np.asarray(p["M"]) == np.round(np.asarray(p["M"]))))  # only if integer-valued
+    Mj = (lambda: jnp.asarray(np.asarray(p["M"]).astype(np.int64))) if as_int else (lambda: J(p["M"]))
     if kind == "full":
         return conditional.ConditionalGaussianPDF(M=Mj(), b=J(p["b"]), **kw), {}
     if kind == "diag":
